@@ -11,3 +11,4 @@ import AxVerif.Model.Db
 import AxVerif.Driver.Hist
 import AxVerif.Thm.C04
 import AxVerif.Thm.C03
+import AxVerif.Thm.C07
